@@ -64,9 +64,14 @@ def check_python(report):
              "the rejection is no longer on the path of API.build: " + " -> ".join(cg.path(pred, fi.qual)[-4:]) if fi.qual in pred else
              "_maybe_get_lro is not reachable from API.build")
     gm = m.func("gapic.schema.api._ProtoBuilder._get_methods")
-    mk = [c for c in calls(gm.node) if ast.unparse(c.func) == "wrappers.Method"]
+    # read on the normal form: a keyword expression hoisted into a local is substituted back
+    from ..pymodel import nfunc
+    ngm = nfunc(m, gm, keep={"_maybe_get_lro", "_maybe_get_extended_lro", "_get_retry_and_timeout"})
+    mk = [c for c in calls(ngm) if ast.unparse(c.func) in ("wrappers.Method", "Method")]
+    r1.need(len(mk) >= 1, "_get_methods: wrappers.Method(...)")
     kk = {x.arg: ast.unparse(x.value) for x in mk[0].keywords} if mk else {}
-    r1.check(pmatch("self._maybe_get_lro(_ANYA_, _ANYB_)", [x.value for x in mk[0].keywords if x.arg == "lro"][0]) is not None if mk and "lro" in kk else False,
+    r1.need("lro" in kk, "_get_methods: wrappers.Method(lro=...)")
+    r1.check(pmatch("self._maybe_get_lro(_ANYA_, _ANYB_)", [x.value for x in mk[0].keywords if x.arg == "lro"][0]) is not None,
              p, gm.node.lineno, f"Method(lro={kk.get('lro')})", "Method.lro must come from _maybe_get_lro")
 
     r2 = report.rule("C08.2", "two-pass proto loading so that LRO types resolve without an import", floor=3)
